@@ -8,6 +8,7 @@ import (
 	"go/types"
 	"sort"
 	"strings"
+	"verifcheck/internal/core"
 
 	"golang.org/x/tools/go/ssa"
 
@@ -17,9 +18,9 @@ import (
 
 func init() {
 	Register(&Spec{
-		ID: "C08",
+		ID:          "C08",
 		Explanation: "Decides structural necessary conditions of robustness against a hostile peer: (R1) every index into Conn.questions/exports/embargoes is justified by a dominating length test, a non-nil find* result for the same id, or an id that comes from the local id generator; (R2) every entry read from a Conn table (or returned by findExport/findEmbargo) is tested non-nil before a field is accessed; (R3) the error passed to annotate/errors.Annotate (which panics on nil) is proven non-nil on its path, and a known-nil argument is always reported; (R4) a func-typed struct field that some site believes can be nil is tested before every call through it; (R5) message dispatch switches have non-panicking defaults and the target switch in handleCall covers what parseMessageTarget accepts; (R6) the error of every handler reaches receive's return; (R7) the explicit panics reachable from the receive loop are the enumerated ones; (R8) handlers keep the lock discipline and never run application code or block under Conn.mu. Does NOT decide that each reply is the protocol-correct one, nor liveness under real scheduling.",
-		Run: runC08,
+		Run:         runC08,
 	})
 }
 
@@ -312,7 +313,7 @@ func ruleUntrustedIndex(ctx *Ctx, rule string) {
 				k++
 				key := fmt.Sprintf("%s | c.%s[%s] #%d", ssaq.FuncName(f), fld.Name(), ssaq.AccessPath(stripConv(ia.Index)), k)
 				pos := q.Pos(ssaq.InstrPos(in))
-				why := indexJustified(f, b, ia, fld, finderOf[fld.Name()])
+				why := indexJustified(f, b, ia, fld, finderOf[core.FieldName(fld)])
 				if why != "" {
 					r.Ok(rule, key, pos, why)
 				} else {
@@ -422,7 +423,7 @@ func fromIDGen(v ssa.Value, seen map[ssa.Value]bool) bool {
 						owner = n.Obj().Name()
 					}
 				}
-				return fld.Name() == "id" && owner == "question"
+				return core.FieldName(fld) == "id" && owner == "question"
 			}
 		}
 	}
@@ -535,12 +536,12 @@ func nonNilByConstruction(v ssa.Value) bool {
 
 func parseFailedLemma(b *ssa.BasicBlock, arg ssa.Value) bool {
 	fld, base := ssaq.LoadedField(arg)
-	if fld == nil || fld.Name() != "err" {
+	if fld == nil || core.FieldName(fld) != "err" {
 		return false
 	}
 	for _, at := range ssaq.Atoms(ssaq.Guards(b)) {
 		if at.Op == token.ILLEGAL && at.True {
-			if f2, b2 := ssaq.LoadedField(at.Val); f2 != nil && f2.Name() == "parseFailed" && ssaq.AccessPath(b2) == ssaq.AccessPath(base) {
+			if f2, b2 := ssaq.LoadedField(at.Val); f2 != nil && core.FieldName(f2) == "parseFailed" && ssaq.AccessPath(b2) == ssaq.AccessPath(base) {
 				return true
 			}
 		}
